@@ -91,19 +91,22 @@ InBlocks(cp, names) == \E n \in names : cp \in Block(n)
 
 (* scripts clearly outside each set (conservative: a script is listed only  *)
 (* if neither the standard nor the usual vendor superset -- Latin-1 for the *)
-(* default repertoire, windows-31j for ISO_IR 13, windows-874 for ISO_IR    *)
-(* 166, windows-949 for ISO_IR 149 -- contains any of its characters)       *)
+(* default repertoire, windows-125x for the ISO 8859 parts, windows-31j /   *)
+(* JIS X 0212/0213 / ISO-2022-JP-2 for the Japanese sets, windows-874 for   *)
+(* ISO_IR 166, windows-949 for ISO_IR 149 -- contains any of its            *)
+(* characters; checked at design time against python3's codecs)             *)
 Far == {"arabic", "hebrew", "thai", "cyrillic", "greek", "hangul", "cjk", "hiragana", "katakana", "emoji",
-        "devanagari", "latinexta"}
+        "devanagari"}
 OutsideBlocks(cs) ==
     CASE cs \in {"ISO_IR 6", "ISO_IR 100"} -> Far
-      [] cs \in {"ISO_IR 101", "ISO_IR 109", "ISO_IR 110"} -> Far \ {"latinexta"}
+      [] cs \in {"ISO_IR 101", "ISO_IR 109", "ISO_IR 110"} -> Far
       [] cs = "ISO_IR 126" -> Far \ {"greek"}
       [] cs = "ISO_IR 127" -> Far \ {"arabic"}
       [] cs = "ISO_IR 138" -> Far \ {"hebrew"}
       [] cs = "ISO_IR 144" -> Far \ {"cyrillic"}
       [] cs = "ISO_IR 166" -> Far \ {"thai"}
-      [] cs \in {"ISO_IR 13", "ISO_IR 87"} -> {"arabic", "hebrew", "thai", "hangul", "emoji", "devanagari", "latinexta"}
+      [] cs = "ISO_IR 13" -> {"arabic", "hebrew", "thai", "hangul", "emoji", "devanagari"}
+      [] cs = "ISO_IR 87" -> {"arabic", "hebrew", "thai", "emoji", "devanagari"}
       [] cs = "ISO_IR 149" -> {"arabic", "hebrew", "thai", "emoji", "devanagari"}
       [] cs = "GBK" -> {"arabic", "hebrew", "thai", "hangul", "emoji", "devanagari"}
       [] OTHER -> {}          \* ISO_IR 192 and GB18030 cover all of Unicode
